@@ -22,6 +22,7 @@ import (
 	"github.com/anyproto/any-sync/commonspace/pubsub"
 	"github.com/anyproto/any-sync/commonspace/pubsub/pubsubproto"
 	"github.com/anyproto/any-sync/net/peer"
+	"github.com/anyproto/any-sync/net/streampool"
 	"github.com/anyproto/any-sync/testutil/accounttest"
 	"github.com/anyproto/any-sync/util/crypto"
 )
@@ -131,7 +132,8 @@ type world struct {
 	calls   []call
 	links   []*link
 	members map[string]map[string]bool // space -> account id -> member
-	gate    *gate
+	gate    *gate // parks a subscribe in CheckMember (before the interest lock)
+	tagGate *gate // parks a subscribe at the pool's AddTagsCtx (interest recorded, tags not yet)
 	wg      sync.WaitGroup
 
 	relay   *engine
@@ -151,6 +153,7 @@ type world struct {
 	classes    map[string]bool
 	nonTrivial bool
 	hooked     bool
+	poolGated  bool
 	events     int
 }
 
@@ -253,6 +256,10 @@ func newWorld(c Case, nClients, nAcc int) (*world, error) {
 		return w, err
 	}
 	_, w.hooked = w.relay.svc.(counts)
+	if pw, ok := w.relay.svc.(poolWrapper); ok {
+		pw.VerifWrapPool(func(p streampool.StreamPool) streampool.StreamPool { return &gatedPool{StreamPool: p, w: w} })
+		w.poolGated = true
+	}
 	for i := 0; i < nClients; i++ {
 		i := i
 		p := &fakePeer{id: relayAcc.peerId, ctx: context.Background(), done: make(chan struct{})}
@@ -385,13 +392,16 @@ func (w *world) shutdown() {
 		l.close()
 	}
 	w.mu.Lock()
-	if w.gate != nil && w.gate.ch != nil {
-		select {
-		case <-w.gate.ch:
-		default:
-			close(w.gate.ch)
+	for _, g := range []*gate{w.gate, w.tagGate} {
+		if g != nil && g.ch != nil {
+			select {
+			case <-g.ch:
+			default:
+				close(g.ch)
+			}
 		}
 	}
+	w.gate, w.tagGate = nil, nil
 	w.mu.Unlock()
 	synctest.Wait()
 	for _, e := range w.clients {
